@@ -159,7 +159,7 @@ def _dfs_edges_rust(
 
     if target is not None:
         if result["target_reached"]:
-            return Result(list(result["path"]), len(result["path"]) - 1, result["iterations"], 0)
+            return Result(list(result["path"]), len(result["path"]) - 1, result["iterations"], 0, Status.FEASIBLE)
         return Result(None, float("inf"), result["iterations"], 0, Status.INFEASIBLE)
 
     return Result(list(result["visited_order"]), 0, result["iterations"], 0)
